@@ -187,6 +187,8 @@ def gen_case(rnd, tier, index):
     knobs = wbgen.draw_knobs(rnd)
     knobs['gadget'] = 0.1
     spec = wbgen.generate(rnd, knobs)
+    if rnd.random() < 0.1:
+        wbgen.add_numpy_gadget(rnd, spec)     # cells that hold numpy scalars
     cfg = draw_cfg(rnd, spec, tier)
     if cfg.get('origin') != 'xlsx' and rnd.random() < 0.12:
         wbgen.add_table_gadget(rnd, spec)     # structured references
